@@ -6,6 +6,8 @@ import FractopoModel.Spec.Azimuth
 import FractopoModel.Model.Subsampling
 import FractopoModel.Model.Contacts
 import FractopoModel.Model.Relationships
+import FractopoModel.Spec.Validators
+import FractopoModel.Spec.Defects
 /-!
 # Model driver: runs the hand-written models and specs (never the regenerated
 definitions, so that it builds whatever the state of /repo) behind a line protocol.
@@ -214,6 +216,50 @@ def intersect (a : Args) : Option String := do
     | .ok (x, y) => s!"sets={x}{y}"
     | .error _ => "sets=error")
 
+/-- `defects traces=`: documented defect strings per trace on a crisp configuration -/
+def defects (a : Args) : Option String := do
+  let traces ← (a.get? "traces") >>= parseLines?
+  let out := (List.range traces.length).map fun i => ";".intercalate ((Defects.defectsOf traces i).map enc)
+  some s!"defects={"|".intercalate out} crisp={showBool (Defects.angleCrisp traces (3/200))}"
+
+/-- geometry kinds on the wire: 0 line, 1 empty line, 2 unmergeable multi-line, 3 mergeable
+multi-line, 4 None, 5 other geometry type -/
+def gkind (g : Nat) : Tval.GKind :=
+  if g == 0 then .line else if g == 1 then .lineEmpty else if g == 2 || g == 3 then .multi else .other
+
+/-- `validate kinds=0,3,2 allowfix=1 chosen=-|A;B allowempty=1 areaempty=0 glob=<s> fails=<idx>:<Validator>[:<dynerr>]|…`
+runs the orchestration model with the documented validator table and the given verdict table
+(verdicts of the minor validators on the frame as it is in the second pass) -/
+def validate (a : Args) : Option String := do
+  let kinds ← (a.get? "kinds") >>= parseNats?
+  let allowFix ← (a.get? "allowfix") >>= parseBool?
+  let allowEmpty ← (a.get? "allowempty") >>= parseBool?
+  let areaEmpty ← (a.get? "areaempty") >>= parseBool?
+  let glob := dec ((a.get? "glob").getD "UNDERLAPPING_SNAP")
+  let chosenS := (a.get? "chosen").getD "-"
+  let chosen : Option (List Tval.Validator) :=
+    if chosenS == "-" then none
+    else some ((chosenS.splitOn ";").filterMap fun n => Spec.allValidators.find? (·.name == n))
+  let failToks := if ((a.get? "fails").getD "").isEmpty then [] else ((a.get? "fails").getD "").splitOn "|"
+  let fails : List (Nat × String × String) ← failToks.mapM fun tok =>
+    match tok.splitOn ":" with
+    | [i, v] => do some (← i.toNat?, v, "")
+    | [i, v, d] => do some (← i.toNat?, v, dec d)
+    | _ => none
+  let O : Tval.Oracle Nat :=
+    { kind := gkind
+      valid := fun v _ g idx =>
+        if v.name == "GeomNullValidator" then !(g == 1 || g == 4)
+        else if v.name == "GeomTypeValidator" then (g == 0 || g == 1)
+        else !(fails.any fun (i, n, _) => i == idx && n == v.name)
+      dynErr := fun v _ _ idx => match fails.find? (fun (i, n, _) => i == idx && n == v.name) with | some (_, _, d) => d | none => ""
+      fix := fun v g => if v.name == "GeomTypeValidator" then (if g == 0 || g == 1 then some g else if g == 3 then some 0 else none) else none }
+  let cfg : Tval.Cfg := ⟨allowFix, Spec.majorErrors, Spec.majorValidators, Spec.allValidators, chosen⟩
+  let (out, glob') := Tval.run O cfg allowEmpty areaEmpty kinds glob
+  some (match out with
+    | .untouched => s!"outcome=untouched glob={enc glob'}"
+    | .validated rows => s!"outcome=validated glob={enc glob'} rows={"|".intercalate (rows.map fun (g, es) => s!"{g}:{";".intercalate (es.map enc)}")}")
+
 end Cmd
 
 def dispatch (line : String) : String :=
@@ -238,6 +284,8 @@ def dispatch (line : String) : String :=
       | "arr" => Cmd.arr a
       | "clip" => Cmd.clip a
       | "rel" => Cmd.rel a
+      | "validate" => Cmd.validate a
+      | "defects" => Cmd.defects a
       | "intersect" => Cmd.intersect a
       | "bweight" => Cmd.bweight a
       | _ => some s!"error=unknown-command:{cmd}"
